@@ -17,7 +17,7 @@ ID = "C14"
 REAL = ["PowerDistributingActor._run/_process_request/_handle_task_completion", "Actor/BackgroundService",
         "frequenz.channels Broadcast"]
 STUB = ["ComponentManager (probe recording enter/exit of distribute_power)", "request producer"]
-RULE = ("one run = 1-3 disjoint component groups, 5-40 unique requests sent through the real requests "
+RULE = ("one run = 1-3 component groups (disjoint, or overlapping but different), 5-40 requests (unique objects, values may repeat) sent through the real requests "
         "channel at drawn instants (bursts, exactly at/around the in-flight completion, long gaps), each "
         "distribute_power completing as drawn (synchronously, after one iteration, after a delay, raising); "
         "non-trivial = at least one request arrived while one of the same group was in flight; distinct = "
